@@ -185,8 +185,20 @@ def load_corpus():
     out = []
     for f in sorted(glob.glob('/verif/corpus/C01/*.json')):
         c = json.load(open(f))
+        if c.get('stream'):
+            continue                 # witnesses of the history streams are loaded by those streams
         c['corpus'] = f
         out.append(c)
+    return out
+
+
+def load_stream_corpus(stream):
+    import glob
+    out = []
+    for f in sorted(glob.glob('/verif/corpus/C01/*.json')):
+        c = json.load(open(f))
+        if c.get('stream') == stream:
+            out.append(c['case'])
     return out
 
 
@@ -259,6 +271,112 @@ def stream_history(ctx):
                 st.disagree({'script': c['script'], 'step': step, 'who': who, 'E': strip_sids(c['E'])}, info, None)
     if st.disagreements:
         ctx.stream_broken('history_shared', f'{len(st.disagreements)} disagreements; first: {json.dumps(st.disagreements[0], default=str)[:500]}')
+
+
+MODEL_SCRIPTS = [
+    [['new', 'Q'], ['new', 'P'], ['sim', 'Q', 0]],
+    [['new', 'E'], ['new', 'P'], ['sim', 'E', 1], ['sim', 'P', 0], ['sim', 'E', 0]],
+    [['new', 'P'], ['gvc', 'E', 1], ['sim', 'P', 0], ['gvc', 'Q', 0], ['sim', 'P', 1]],
+    [['new', 'P'], ['new', 'Q'], ['sim', 'P', 0], ['sim', 'Q', 1], ['sim', 'P', 1], ['sim', 'Q', 0]],
+    [['new', 'E'], ['sim', 'E', 0], ['new', 'P'], ['sim', 'P', 1], ['sim', 'E', 1], ['new', 'Q'], ['sim', 'E', 0], ['sim', 'Q', 1]],
+]
+MODEL_SCRIPTS_ONE_ROW = [
+    [['fn', 'P', 0], ['gvc', 'E', 1], ['fn', 'P', 1], ['new', 'Q'], ['fn', 'P', 0], ['sim', 'Q', 1]],
+    [['new', 'P'], ['ll', 'P', 0], ['new', 'Q'], ['ll', 'P', 1], ['sim', 'Q', 0], ['ll', 'P', 0], ['ll', 'Q', 1]],
+    [['fn', 'E', 0], ['new', 'P'], ['sim', 'P', 1], ['fn', 'E', 1], ['gvc', 'Q', 0], ['fn', 'E', 0]],
+]
+
+
+def random_model_script(rng):
+    script, have = [], set()
+    for _ in range(rng.choice([5, 6, 7, 8])):
+        m = rng.choice(['E', 'P', 'Q'])
+        if rng.random() < 0.35:
+            script.append(['gvc', m, rng.choice([0, 1])])
+            continue
+        if m not in have:
+            script.append(['new', m])
+            have.add(m)
+            if rng.random() < 0.5:
+                continue
+        script.append(['sim', m, rng.choice([0, 1])])
+    return script
+
+
+def stream_models(ctx):
+    """Sharing over HISTORIES OF MODELS: one sub-formula object E inside the formulas of several BIOGEME objects (and evaluated
+    separately in between); simulate / calculate_likelihood / a function created once must keep returning the mathematical value."""
+    from gen_expr import Gen
+    st = ctx.stream('history_models', 'one sub-formula object E shared by E, P = E + A_first*x1 (a parameter sorting first) and Q = E*z_last, '
+                    'each the formula of its own BIOGEME object; scripts of: build a model, simulate(model, value set), separate '
+                    'get_value_c with temporary identifiers, a function created once (create_function) and called again later, '
+                    'calculate_likelihood; two distinct value sets; every value vs the enclosure of its own formula at that value set; '
+                    'non-trivial = E has a free parameter and the script evaluates a model built before another one was built')
+    rng = ctx.sub_rng('models')
+    cases = load_stream_corpus('history_models')
+    for i in range(ctx.n(40, 600)):
+        g = Gen(rng, variables=True, max_depth=rng.choice([2, 3]), share_p=0.1, heads={'exclude': ['NormalCdf']})
+        E = g.real(g.max_depth)
+        if not [b for b, v in g.betas.items() if not v['fixed']]:
+            nb = {'h': ['Beta', 'b_mid', False], 'k': []}
+            g.betas['b_mid'] = {'value': 0.5, 'fixed': False, 'positive': False, 'lb': None, 'ub': None}
+            E = g.node(['Bin', 'Plus'], [E, g.node(['Bin', 'Times'], [nb, g.var()], 'real')], 'real')
+        if 'sid' not in E:
+            g.sid += 1
+            E['sid'] = g.sid
+        betas = dict(g.betas)
+        betas['A_first'] = {'value': 0.75, 'fixed': False, 'positive': True, 'lb': None, 'ub': None}
+        betas['z_last'] = {'value': -1.25, 'fixed': False, 'positive': False, 'lb': None, 'ub': None}
+        P = {'h': ['Bin', 'Plus'], 'k': [E, {'h': ['Bin', 'Times'], 'k': [{'h': ['Beta', 'A_first', False], 'k': []}, {'h': ['Var', 'x1'], 'k': []}]}]}
+        Q = {'h': ['Bin', 'Times'], 'k': [E, {'h': ['Beta', 'z_last', False], 'k': []}]}
+        r = rng.random()
+        if r < 0.25:
+            script, nrows = rng.choice(MODEL_SCRIPTS_ONE_ROW), 1
+        elif r < 0.65:
+            script, nrows = rng.choice(MODEL_SCRIPTS), 2
+        else:
+            script, nrows = random_model_script(rng), 2
+        v0 = {k: v['value'] for k, v in betas.items()}
+        v1 = {k: (v['value'] if v['fixed'] else (v['value'] + 0.25 if v['value'] > 0 else v['value'] - 0.25)) for k, v in betas.items()}
+        cases.append({'E': E, 'P': P, 'Q': Q, 'betas': betas, 'rows': g.rows(nrows), 'script': script, 'valsets': [v0, v1]})
+    res = ctx.impl_cases('c01_models.py', cases, chunk=8)
+    vc, meta = [], []
+    for c, r in zip(cases, res):
+        if 'crash' in r or 'build_exc' in r:
+            ctx.violation('C01/models/exception', 'a history of models sharing a well-formed sub-formula failed',
+                          {'script': c['script'], 'E': strip_sids(c['E'])}, None, r.get('crash') or r.get('build_exc'))
+            continue
+        news = [i for i, s_ in enumerate(c['script']) if s_[0] == 'new']
+        late = any(s_[0] in ('sim', 'll', 'fn') and any(n > [j for j, t in enumerate(c['script']) if t[0] in ('new', 'fn') and t[1] == s_[1]][0] and n < i
+                                                       for n in news)
+                   for i, s_ in enumerate(c['script']))
+        st.record({'E': strip_sids(c['E']), 'script': c['script']}, nontrivial=late)
+        for step, (s_, vals) in enumerate(zip(c['script'], r['steps'])):
+            if s_[0] == 'new':
+                if vals != 'ok':
+                    st.extra['steps_outside_domain'] = st.extra.get('steps_outside_domain', 0) + 1
+                    break
+                continue
+            if isinstance(vals, dict):
+                vals = [vals['sum']]
+            if not isinstance(vals, list):
+                # the engine aborts the whole evaluation when one row is outside the domain: nothing is claimed here
+                st.extra['steps_outside_domain'] = st.extra.get('steps_outside_domain', 0) + 1
+                break
+            tree = strip_sids(c[s_[1]])
+            for row, v in zip(c['rows'], vals):
+                vc.append({'expr': tree, 'env': {'beta': c['valsets'][s_[2]], 'var': row}, 'observed': v})
+                meta.append((c, step, s_))
+    for (c, step, s_), (v, info) in zip(meta, check_values(ctx, 'c01models', vc, relbits=-30)):
+        if v == 'differ':
+            w = {'E': c['E'], 'P': c['P'], 'Q': c['Q'], 'betas': c['betas'], 'rows': c['rows'], 'script': c['script'], 'valsets': c['valsets'],
+                 'step': step}
+            if ctx.violation(f'C01/models/{s_[0]}-{s_[1]}-step{step}', f'in the history {c["script"]} the value returned by step {step} {s_} is '
+                             'outside the enclosure of the mathematical value of its formula at that value set (identifiers or values left by '
+                             'another model / evaluation were used)', w, info, None):
+                st.disagree({'script': c['script'], 'step': step, 'E': strip_sids(c['E'])}, info, None)
+    if st.disagreements:
+        ctx.stream_broken('history_models', f'{len(st.disagreements)} disagreements; first: {json.dumps(st.disagreements[0], default=str)[:500]}')
 
 
 def stream_dsl(ctx):
@@ -433,6 +551,7 @@ def run(ctx):
     stream_stale(ctx)
     stream_phi_grid(ctx)
     stream_history(ctx)
+    stream_models(ctx)
     stream_dsl(ctx)
 
 
